@@ -324,8 +324,9 @@ HARNESSES = [
             params={"quick": [{"n": 2, "orig": 4, "minb": 2, "maxb": 2, "adaptive": True, "diss": False},
                               {"n": 3, "orig": 4, "minb": 2, "maxb": 2, "adaptive": True, "diss": False},
                               {"n": 2, "orig": 4, "minb": 2, "maxb": 3, "adaptive": True, "diss": True},
-                              {"n": 3, "orig": 4, "minb": 2, "maxb": 3, "adaptive": False, "diss": True}],
-                    "thorough": [{"n": 3, "orig": 4, "minb": 2, "maxb": 3, "adaptive": True, "diss": False},
+                              {"n": 3, "orig": 4, "minb": 2, "maxb": 3, "adaptive": False, "diss": True},
+                              {"n": 2, "orig": 4, "minb": 4, "maxb": 6, "adaptive": True, "diss": True}],          # fewer classes than minBins/2
+                    "thorough": [{"n": 3, "orig": 4, "minb": 2, "maxb": 3, "adaptive": True, "diss": False}, {"n": 2, "orig": 4, "minb": 6, "maxb": 8, "adaptive": True, "diss": True},
                                  {"n": 3, "orig": 4, "minb": 2, "maxb": 4, "adaptive": True, "diss": True},
                                  {"n": 4, "orig": 4, "minb": 2, "maxb": 4, "adaptive": True, "diss": False}]}),
     Harness("C08.op_update", op_update, functions=_ALL, assumptions=_A + ["incoming newN unconstrained (may be negative)"],
